@@ -62,6 +62,11 @@ CHECKS = {
     text="150/2000 generated traces with repeated operator names at several depths; for a drawn operator name, min_pattern_len in {1,2,3} and top_k in {1,5} the returned table is compared by TLC with: instances = matching events at the shallowest matching depth with enough kernel descendants, pattern = name + descendant kernel names in start order, count/CPU/GPU sums, descending-count order.",
     note="Descendants are taken from the call graph's parent column (bound by C13); substring match done by the harness; cases where two device activities share a start time are redrawn. " + TB,
     ref="DESIGN.md section 5 (C16)"),
+ "C05": dict(
+    technique="TLA+ merge + bit-mask sweep model (MC_Breakdown, invariant C05_TypeTable, all tie orders) checked by TLC + TLC trace validation of get_gpu_kernel_breakdown (type table and per-kernel table) in Trace_Breakdown",
+    text="The sweep model (shared with C04/C07) proves for every small multiset and tie order that the accumulated time per running mask equals the time during which exactly that combination runs; 300/4000 generated traces x num_kernels {1,2,3,10} x duration_ratio {0.1,0.5,0.8,1} x include_memory_kernels are run through the real API and TLC checks every type row (Exactly summed over ranks, total, percentages) and, per (rank, type): conservation of the sums incl. 'others', the bound on named rows, and sum/min/max/mean of every named row.",
+    note="Which names are folded into 'others' is left open (the statement does not fix it). " + TB,
+    ref="DESIGN.md section 5 (C05)"),
 }
 
 NOT_YET = {}
